@@ -32,6 +32,7 @@ use std::io::Write;
 mod batch0;
 mod batch1;
 mod batch2;
+mod large;
 mod refuse;
 
 // ------------------------------------------------------------ what a declaration said
@@ -75,6 +76,12 @@ pub struct Decl {
     pub expect_refused: Option<bool>,
     #[serde(default)]
     pub raw_content_type: Option<String>,
+    /// size-like dimensions this declaration pushes (evidence tags `large:..`)
+    #[serde(default)]
+    pub large: Vec<String>,
+    /// refuse mode, arity probes: number of extractor parameters
+    #[serde(default)]
+    pub extractors: Option<usize>,
 }
 #[derive(Deserialize, Clone, Debug)]
 pub struct TagExt {
@@ -679,6 +686,15 @@ fn batches() -> Vec<Batch> {
             panics: batch1::panics::observe,
         },
         Batch {
+            k: 9,
+            json: large::DECLS_JSON,
+            raw: large::RAW,
+            api_fn: large::fns::api,
+            api_impl: large::tr::api_impl,
+            api_stub: large::tr::api_stub,
+            panics: large::panics::observe,
+        },
+        Batch {
             k: 2,
             json: batch2::DECLS_JSON,
             raw: batch2::RAW,
@@ -762,6 +778,11 @@ fn run_batch(b: &Batch, opts: &Opts, only: Option<&[usize]>, out: &mut dyn Write
                 continue;
             }
         }
+        // plain filler declarations of the large-scope batch (they make the APIs large): every
+        // one is registered, routed and in the compared documents; one in sixteen is judged singly
+        if b.k == 9 && only.is_none() && d.large.is_empty() && d.idx % 16 != 0 {
+            continue;
+        }
         // the doc attribute strings as rustc tokenised them vs the generator's record
         let raw = b.raw.iter().find(|(n, _)| *n == d.name).map(|(_, r)| *r);
         let raw_ok = match raw {
@@ -842,6 +863,7 @@ fn run_batch(b: &Batch, opts: &Opts, only: Option<&[usize]>, out: &mut dyn Write
         if d.operation_id.is_some() {
             tags.push("operation_id".into());
         }
+        tags.extend(d.large.iter().cloned());
         emit(
             out,
             &Line {
@@ -946,12 +968,31 @@ fn main() {
                 }
             }
             None => {
+                // each batch into its own buffer; the lines are then emitted round-robin so
+                // that the expensive cases (large doc comments) spread over the driver's shards
+                let mut bufs: Vec<Vec<u8>> = Vec::new();
                 for b in &bs {
-                    if b.k == 0 || opts.thorough {
-                        run_batch(b, opts, None, out);
+                    if b.k == 0 || b.k == 9 || opts.thorough {
+                        let mut buf = Vec::new();
+                        run_batch(b, opts, None, &mut buf);
+                        bufs.push(buf);
                     }
                 }
-                run_tagcfg(None, out);
+                let mut buf = Vec::new();
+                run_tagcfg(None, &mut buf);
+                bufs.push(buf);
+                // stride permutation: consecutive cases go to different shards of the driver
+                // (it cuts the list into 16 contiguous parts)
+                let lines: Vec<&[u8]> = bufs
+                    .iter()
+                    .flat_map(|b| b.split(|c| *c == b'\n').filter(|l| !l.is_empty()))
+                    .collect();
+                for r in 0..16 {
+                    for x in lines.iter().skip(r).step_by(16) {
+                        out.write_all(x).unwrap();
+                        out.write_all(b"\n").unwrap();
+                    }
+                }
             }
         }
     });
